@@ -19,6 +19,7 @@
 //! evaluated row by row on the logged vectors (oracle: they vanish for an honest witness).
 
 mod args;
+mod branches;
 mod rec;
 mod stress;
 mod van;
@@ -39,7 +40,7 @@ use midnight_proofs::{
     transcript::{Hashable, Sampleable, Transcript, TranscriptHash},
 };
 use mzkh::{
-    family::{sample_params, FamCircuit, FamParams, GateKind, LookupKind},
+    family::{sample_params, sample_params_ext, FamCircuit, FamParams, GateKind, LookupKind, SHAPE_GROUPS},
     Ctx,
 };
 use rec::{take_log, Event, ValueTranscript as RecordingTranscript};
@@ -63,6 +64,10 @@ fn tokens(ev: &[Event]) -> String {
 use mzkh::shape::shape_string;
 
 static CASE_NO: std::sync::atomic::AtomicUsize = std::sync::atomic::AtomicUsize::new(0);
+
+/// Branches of `add_expression` hit so far by the gate polynomials of the `graph` lines.
+static BRANCH_HITS: std::sync::Mutex<std::collections::BTreeMap<&'static str, u64>> =
+    std::sync::Mutex::new(std::collections::BTreeMap::new());
 
 struct Setup {
     params: HashMap<u32, ParamsKZG<Bls12>>,
@@ -167,6 +172,20 @@ where
         );
         if !gates.is_empty() {
             ctx.case("graph", true, &format!("graph {}", gates.join(";")), &ans);
+            // statistics: the branch of `add_expression` every node of these polynomials takes
+            let mut mir = branches::Mirror::new();
+            for g in pk.get_vk().cs().gates() {
+                for p in g.polynomials() {
+                    mir.add(p);
+                }
+            }
+            let mut all = BRANCH_HITS.lock().unwrap();
+            for (l, n) in &mir.hits {
+                *all.entry(*l).or_insert(0) += *n;
+            }
+            if mir.calc_strings() != body || mir.constants != consts || mir.rotations != rots {
+                ctx.count("branch-statistics:mirror-differs-from-real-graph");
+            }
         }
     }
     let lens = insts
@@ -573,6 +592,51 @@ fn main() {
     let nf = lookup_failure_cases(&mut ctx, &mut setup, &lf, 24, max_lf);
     ctx.count_n("lookup-failure-cases", nf as u64);
 
+    // EXTENDED FAMILY (C01 / C02 only).
+    // (a) expression shapes: every branch of `add_expression` on both operand positions; the
+    //     compiled graph must equal the Lean compiler's and the honest proof must verify
+    for g in 0..SHAPE_GROUPS {
+        let fp = FamParams { gates: vec![GateKind::Shapes(g), GateKind::Mul], steps: 4, ..FamParams::default() };
+        both_hashes(&mut ctx, &mut setup, &fp, 1 + (g as usize % 2), 0, 80 + g as u64, g == 0);
+    }
+    let all_shapes = FamParams {
+        gates: (0..SHAPE_GROUPS).map(GateKind::Shapes).chain([GateKind::LinRot]).collect(),
+        n_adv0: 4,
+        steps: 7,
+        ..FamParams::default()
+    };
+    both_hashes(&mut ctx, &mut setup, &all_shapes, 1, 1, 85, false);
+    // (b) a two-column `lookup_any` whose highest-degree input and highest-degree table expression
+    //     sit in different columns and which is the only constraint of degree 6: the degree
+    //     bookkeeping (`lookup.rs: required_degree`) decides the extended domain and the number of
+    //     quotient pieces; (c) a lookup table without a zero row (filler 5)
+    let mixed = FamParams { gates: vec![GateKind::Mul], lookups: vec![LookupKind::MixedDeg], steps: 5, ..FamParams::default() };
+    both_hashes(&mut ctx, &mut setup, &mixed, 1, 0, 86, true);
+    both_hashes(&mut ctx, &mut setup, &mixed, 2, 1, 87, false);
+    let mixed2 = FamParams {
+        gates: vec![GateKind::Mul, GateKind::LinRot, GateKind::Additive],
+        lookups: vec![LookupKind::Range, LookupKind::MixedDeg, LookupKind::NoZero],
+        n_committed: 1,
+        steps: 8,
+        ..FamParams::default()
+    };
+    both_hashes(&mut ctx, &mut setup, &mixed2, 1, 0, 88, false);
+    let nozero = FamParams { gates: vec![GateKind::Mul], lookups: vec![LookupKind::NoZero], steps: 6, table_bits: 2, ..FamParams::default() };
+    both_hashes(&mut ctx, &mut setup, &nozero, 1, 0, 89, false);
+    {
+        let mut erng = ctx.rng("family-ext");
+        let n_ext = match ctx.tier.as_str() {
+            "quick" => 6,
+            "thorough" => 40,
+            _ => 12,
+        };
+        for i in 0..n_ext {
+            let fp = sample_params_ext(&mut erng);
+            let n_proofs = erng.gen_range(1..=2);
+            both_hashes(&mut ctx, &mut setup, &fp, n_proofs, 0, 3000 + i as u64, false);
+        }
+    }
+
     let (n_random, search_cfgs) = match ctx.tier.as_str() {
         "quick" => (14, false),
         "thorough" => (150, true),
@@ -599,6 +663,15 @@ fn main() {
                         run_case::<Blake2bState>(&mut ctx, &mut setup, "blake2b", &fp, np, 0, 7000 + (np * 100 + nc * 10 + npl) as u64, np == 1);
                     }
                 }
+            }
+        }
+    }
+    {
+        let all = BRANCH_HITS.lock().unwrap();
+        for l in branches::ALL_BRANCHES {
+            match all.get(l) {
+                Some(n) => ctx.count_n(&format!("add_expression-branch:{l}"), *n),
+                None => ctx.count(&format!("WARNING:add_expression-branch-never-hit:{l}")),
             }
         }
     }
